@@ -296,9 +296,8 @@ func c07ErrorEdgesSkipSinks(r *an.Run, m *runModel) {
 		}
 		// the error is appended to errors on that path
 		appended := false
-		for i, e := range m.errsPhi.Edges {
-			pred := m.errsPhi.Block().Preds[i]
-			if region[pred] && e != ssa.Value(m.errsPhi) && derivesFrom(e, errValue(call)) {
+		for _, rec := range m.acc.recordsIn(region) {
+			if rec.derivesFromErr(errValue(call)) {
 				appended = true
 			}
 		}
